@@ -119,6 +119,25 @@ func (e2Engine) Gen(prop string, seed int64, tier string) *Plan {
 func c15Branchable(p *Plan, seed int64) {
 	if rb := newRng(seed, 152); p.Cfg["col"] == 0 && chance(rb, 20) {
 		p.Cfg["col"] = 1
+		if p.Cfg["mode"] == 0 && chance(rb, 35) {
+			// the replicator is configured on a node that has documents, its first pushes are left to time
+			// out while a write to the unreachable peer has already started the retry loop (short intervals):
+			// recording the failed push then competes with the retry pass
+			p.Cfg["intervals"] = 0
+			p.Cfg["docs"] = 2 + rb.IntN(2)
+			pre := []Step{
+				{K: "write", A: 0, B: 0, C: rb.IntN(64), D: rb.IntN(64)}, {K: "write", A: 0, B: 1, C: rb.IntN(64), D: rb.IntN(64)},
+				{K: "tick", A: 3}, {K: "setrep"}, {K: "tick", A: 5}, {K: "down"},
+				{K: "write", A: 1, B: rb.IntN(2), C: rb.IntN(64), D: rb.IntN(64)}, {K: "tick", A: 2}, {K: "up"},
+			}
+			var rest []Step
+			for _, st := range p.Steps {
+				if st.K != "setrep" {
+					rest = append(rest, st)
+				}
+			}
+			p.Steps = append(pre, rest...)
+		}
 	}
 }
 
